@@ -179,6 +179,15 @@ def p_mixed_address_styles(script, v):
     return st.get("op") == "abort" and st.get("kind") == "reuse-hier"
 
 
+def p_mask_flag_encoding_structure(script, v):
+    # The pytree *structure* of a MaskTrace depends on whether its flag is a
+    # concrete Python bool (choice map flattened: empty for False, unmasked for
+    # True) or an array (masked leaves).  Operations that zip an old and a new
+    # trace (Vmap.edit_index, MaskCombinator.edit, lax.cond/switch branches)
+    # fail when one was built with a Python flag and the other with an array.
+    return _has(script, "mask", "masked_iterate", "masked_iterate_final")
+
+
 def p_true(script, v):
     return True
 
